@@ -80,6 +80,12 @@ func genStale(t *rapid.T) staleScenario {
 func runStaleScenario(st staleScenario, rec *verifkit.Recorder, fail func(string, ...any)) (err error) {
 	sc := st.scenario
 	w, m := sc.setup(fail)
+	if !sc.Control {
+		// A revision that does not control never writes an object it does not see.
+		for _, i := range st.Hidden {
+			delete(m.Refused, i)
+		}
+	}
 	must := m.mustFail()
 	self, pkg := w.revs[revName], w.pkgs[pkgName]
 	hidden := map[verifsim.Key]bool{}
@@ -253,7 +259,10 @@ func runRaceScenario(rs raceScenario, rec *verifkit.Recorder, fail func(string, 
 			case pPrevControlled:
 				refs = []map[string]any{w.revs[prevName].ref(&tr), w.pkgs[pkgName].ref(&fa)}
 			}
-			w.putObject(stored, m.Names[j], refs)
+			if err := w.tryPutObject("interloper", stored, m.Names[j], refs); err != nil {
+				when = "interloper-too-late" // the establisher created the object first
+				return
+			}
 			w.sim.With(func(*verifsim.View) {
 				when = "after-dry-run"
 				if w.cur != nil && !w.cur.DryKeys[kj] {
@@ -265,7 +274,8 @@ func runRaceScenario(rs raceScenario, rec *verifkit.Recorder, fail func(string, 
 			})
 		}
 		_, err, cc := w.establishWith(tc, revName, sc.Objs, sc.Control, 1, must)
-		if !tc.fired {
+		if !tc.fired || when == "interloper-too-late" {
+			rec.Label("race:interloper-too-late")
 			continue
 		}
 		where := fmt.Sprintf("Establish of %s while %s is created as %s before the establisher's call %d (%s, %s)", verifkit.JSON(sc), kj, rs.As, at, at2(probe.Calls, at), when)
